@@ -89,7 +89,9 @@ class Project(object):
         self._context_cache.clear()
         # Cached modules keep what they got from the modules they import
         # (resolved names, star imports): a changed file outdates all of them.
-        if any(m.changed for m in self._module_cache.values()):
+        # The same goes for modules analysed in the middle of an import cycle.
+        if any(m.changed or getattr(m, 'tentative', False)
+               for m in self._module_cache.values()):
             self._module_cache.clear()
         yield
 
